@@ -177,6 +177,37 @@ func keyCatalogue() []keyType {
 	}
 }
 
+// Two DIFFERENT key types with the same printed name (function-local types),
+// used one after the other in one process: anything keyed by a type's name
+// instead of its identity confuses them.
+func sameNameTypes() keyType {
+	return keyType{name: "same-name-local-types", run: func(a *args, res *result) {
+		func() {
+			type dupKey struct{ a, b float32 }
+			nz := float32(math.Copysign(0, -1))
+			kt("dupKey{a,b float32}", func() []dupKey {
+				return []dupKey{{0, 0}, {nz, 0}, {0, nz}, {nz, nz}, {1, 2}, {2, 1}, {1, nz}, {1, 0}}
+			}, func(i int) dupKey { return dupKey{float32(i), float32(-i)} }, nil).run(a, res)
+		}()
+		func() {
+			type dupKey struct{ s string }
+			kt("dupKey{s string}", func() []dupKey {
+				return []dupKey{{""}, {"a"}, {dupString("a")}, {"ab"}, {dupString("ab")}, {"b"}, {dupString("long-string-0123456789")}, {"long-string-0123456789"}}
+			}, func(i int) dupKey { return dupKey{fmt.Sprintf("k%d", i)} }, nil).run(a, res)
+		}()
+		func() {
+			type dupKey struct {
+				p *int
+				n int8
+			}
+			x, y := 1, 1
+			kt("dupKey{p *int; n int8}", func() []dupKey {
+				return []dupKey{{}, {&x, 0}, {&y, 0}, {&x, 1}, {nil, 1}}
+			}, nil, nil).run(a, res)
+		}()
+	}}
+}
+
 func kt[K comparable](name string, pool func() []K, gen func(int) K, mutate func(int)) keyType {
 	return keyType{name: name, run: func(a *args, res *result) { runKeyType(a, res, name, pool(), gen, mutate) }}
 }
@@ -214,6 +245,24 @@ func runKeyType[K comparable](a *args, res *result, name string, pool []K, gen f
 			}
 		}
 		variant := r.intn(6)
+		churn := s%8 == 3
+		if churn {
+			// collide-churn: every key in one chain, stored once, then deleted in forward,
+			// reverse or shuffled order with every remaining key looked up after each delete
+			variant = 2
+			if gen != nil {
+				keys = append([]K{}, pool...)
+				for i := 0; i < 60; i++ {
+					keys = append(keys, gen(i))
+				}
+				index = make(map[K]int, len(keys))
+				for i, k := range keys {
+					if _, ok := index[k]; !ok {
+						index[k] = i
+					}
+				}
+			}
+		}
 		var m cache.MapOf[K, int]
 		var c cache.CacheOf[K, int]
 		vname := ""
@@ -241,6 +290,39 @@ func runKeyType[K comparable](a *args, res *result, name string, pool []K, gen f
 			res.violate(violation{Class: "keys", Sig: fmt.Sprintf("%s key: %s disagrees with builtin map", name, op),
 				Msg:  fmt.Sprintf("%s %s: %s(pool[%d]=%v): ", name, vname, op, ki, keys[ki]) + fmt.Sprintf(format, x...),
 				Case: map[string]any{"case_index": s, "type": name, "variant": vname}})
+		}
+		if churn {
+			for i, k := range keys {
+				m.Store(k, i+1)
+				ref[k] = i + 1
+			}
+			order := r.Perm(len(keys))
+			switch r.intn(3) {
+			case 0:
+				for i := range order {
+					order[i] = i
+				}
+			case 1:
+				for i := range order {
+					order[i] = len(keys) - 1 - i
+				}
+			}
+			for _, ki := range order {
+				m.Delete(keys[ki])
+				delete(ref, keys[ki])
+				for kj, k := range keys {
+					rv, rok := ref[k]
+					if g, ok := m.Load(k); ok != rok || g != rv {
+						bad("Load after deletes in a fully colliding chain", kj, "(%d,%v), builtin map (%d,%v) after deleting pool[%d]", g, ok, rv, rok, ki)
+						break
+					}
+				}
+				if m.Size() != len(ref) {
+					bad("Size after deletes in a fully colliding chain", ki, "Size=%d, builtin map %d", m.Size(), len(ref))
+				}
+			}
+			nops = 0
+			res.count("collide_churn_sequences", 1)
 		}
 		for i := 0; i < nops; i++ {
 			ki := r.intn(len(keys))
@@ -400,7 +482,7 @@ func runKeyType[K comparable](a *args, res *result, name string, pool []K, gen f
 
 func runKeys(a *args, res *result) {
 	res.Rule = "one process per key type; sequence = PRNG calls of every MapOf/CacheOf method on keys drawn from a pool containing equal-but-differently-represented and similar-but-different values (and 3000 generated keys every 8th sequence), under the default hasher, presized tables, a constant hasher and a 3-valued hasher, with memory the keys point to mutated in between; every result and the final Range/Size compared with a builtin map[K]int; distinct = hash of (type, variant, op/key sequence); every sequence is non-trivial (pools always contain equal and colliding keys)"
-	cat := keyCatalogue()
+	cat := append(keyCatalogue(), sameNameTypes())
 	if a.extra == "list" {
 		for _, k := range cat {
 			fmt.Println(k.name)
